@@ -54,6 +54,14 @@ def oracle(prog, idx):
                 return fails
             ids[n] = id(t)
             if n in consts and consts[n] != t.constant and st[0] in INPLACE:
+                tgt = ex.v.get(st[1])
+                if consts[n] and n != st[1] and tgt is not None and not tgt.constant and (tgt.base is t or (tgt.base is not None and tgt.base is t.base)):
+                    # family (also a C10 finding): a where-masked in-place ufunc through a view that was *forced*
+                    # non-constant on a constant base turns the constant members of the family non-constant
+                    w_ = (st[5] if st[0] == "outb" else st[4]) if st[0] in ("outb", "outu") else None
+                    how = st[0] + ("+where" if w_ is not None else "")
+                    fails.append((f"flag-flips-under-forced-nonconstant-view:{how}!", f"`{progs.to_line(st)}` turned the constant tensor t{n} non-constant"))
+                    return fails
                 fails.append(("constant-flag", f"t{n}.constant changed from {consts[n]} to {t.constant} by `{progs.to_line(st)}`"))
                 return fails
             consts[n] = t.constant
@@ -104,21 +112,12 @@ def _fails_pred(cls):
 
 
 def run(ctx: Ctx) -> Outcome:
-    n = ctx.n(600, 10000)
+    n = ctx.n(2000, 12000)
     out, results = engcheck.run_programs(ctx, n, dict(GEN, n_stmts=ctx.n(10, 24)), "oracle", nontrivial)
     out.rule = ("random single-epoch histories of view creation (basic indexing, reshape, transposes, expand/squeeze, "
                 "broadcast_to), non-view ops and in-place updates (item assignment, augmented assignment, out= with optional "
                 "where=) on bases, views and views of views; non-trivial = >=2 in-place updates and >=1 view; distinct by hash")
-    seen = set()
-    for r in results:
-        for cls, msg in r["fails"]:
-            if cls in seen:
-                continue
-            seen.add(cls)
-            small = engcheck.shrink(r["prog"], _fails_pred(cls)) if cls != "ORACLE-CRASH" else r["prog"]
-            msgs = [m for c, m in oracle(small, 0) if c == cls] or [msg]
-            out.violations.append(Violation(f"C04|{cls}|{engcheck.prog_signature(small)}", f"{cls}: {msgs[0]}",
-                                            {"kind": "program", "program": small, "class": cls}))
+    seen = engcheck.report(out, results, "C04", oracle)
     # the `.shape` setter (known to be false of the unchanged code once an in-place update follows)
     for v in shape_setter_cases(ctx):
         if v.signature not in seen:
@@ -223,6 +222,11 @@ def shape_setter_cases(ctx):
 
 
 def check_witness(w):
+    if "program" in w:
+        for cls, msg in oracle(w["program"], 0):
+            if cls.endswith("!"):
+                return Violation(f"C04|{cls[:-1]}", msg, {"kind": "program", "program": w["program"], "class": cls})
+        return None
     cls, msg = run_shape_steps(w["steps"])
     return None if cls is None else Violation(f"C04|shape-setter|{cls}", msg, {"kind": "shape", "steps": w["steps"]})
 
